@@ -96,6 +96,14 @@ def gen_mesh_struct(rng, small=False):
             if dim == 2 and rng.random() < 0.5:
                 l = rand_frac(rng)
                 dom = (l, l + Fraction(rng.randrange(1, 50), rng.choice([1, 4, 10])))
+            if dim == 2 and rng.random() < 0.4:
+                # Bezier chart: >= 2 vertex points, each (but the first) with 0..2 control points, optional params
+                nvp = rng.choice([2, 3, 5])
+                segs = [([[rand_frac(rng), rand_frac(rng)] for _ in range(0 if i == 0 else rng.choice([0, 0, 1, 2]))],
+                         [rand_frac(rng), rand_frac(rng)]) for i in range(nvp)]
+                charts.append({"name": cn, "bezier": {"closed": rng.random() < 0.5, "orient": rng.choice([None, None, "-1", "1"]),
+                                                    "segs": segs, "params": [Fraction(i) for i in range(nvp)] if rng.random() < 0.6 else []}})
+                continue
             charts.append({"name": cn, "radius": radius, "mid": mid, "dom": dom})
     parts = []
     names = set()
@@ -287,6 +295,38 @@ def print_mesh_file(rng, st, fancy=True):
             num = lambda x: show_frac_file(rng, x) if fancy else vlib.frac_str(x)
             L.add("chart-open", markup(rng, fancy, "Chart", [("name", c["name"])]))
             L.ind += 2
+            if "bezier" in c:
+                b = c["bezier"]
+                battrs = [("dim", "2"), ("size", str(len(b["segs"])))]
+                if b["closed"] or (fancy and rng.random() < 0.5):
+                    battrs.append(("type", "closed" if b["closed"] else "open"))
+                if b["orient"] is not None:
+                    battrs.append(("orientation", b["orient"]))
+                L.add("bezier-open", markup(rng, fancy, "Bezier", battrs))
+                L.ind += 2
+                blocks = ["p"] + (["q"] if b["params"] else [])
+                if fancy and rng.random() < 0.3:
+                    blocks.reverse()
+                for blk in blocks:
+                    if blk == "p":
+                        L.add("bpoints-open", "<Points>")
+                        L.ind += 2
+                        for ctrl, vtx in b["segs"]:
+                            L.add("bpoint-line", sep(rng, fancy).join([str(len(ctrl))] + [num(x) for pt in ctrl + [vtx] for x in pt]))
+                        L.ind -= 2
+                        L.add("bpoints-close", "</Points>")
+                    else:
+                        L.add("bparams-open", "<Params>")
+                        L.ind += 2
+                        for x in b["params"]:
+                            L.add("bparam-line", num(x))
+                        L.ind -= 2
+                        L.add("bparams-close", "</Params>")
+                L.ind -= 2
+                L.add("bezier-close", "</Bezier>")
+                L.ind -= 2
+                L.add("chart-close", "</Chart>")
+                continue
             attrs = [("radius", num(c["radius"])), ("midpoint", sep(rng, fancy).join(num(x) for x in c["mid"]))]
             if c["dom"] is not None:
                 attrs.append(("domain", sep(rng, fancy).join(num(x) for x in c["dom"])))
@@ -459,10 +499,6 @@ def add_recognised(tag, text, valid=False):
     e, cl = split_tag(tag)
     hz = hazardous(text)
     cl = cl + (hz[1:] if hz else "")
-    # a mutated file with a topology="parent" part may refer to parent vertices outside the part (class C = K11);
-    # files printed by the valid generator contain all vertices of their cells by construction
-    if not valid and has_parent_topology(text):
-        cl += "C"
     return join_tag(e, cl)
 
 
@@ -554,6 +590,20 @@ def mutate(rng, L, st):
                 j += 1
             items = [k for k in range(i, j) if lines[k][0] in ("chart-item", "chart-item-open")]
             which = rng.choice(["midpoint", "radius", "empty", "dup", "rename", "content", "domain"])
+            if not items:
+                # Bezier chart: declared size off by one / a point line with a wrong number of coordinates
+                bo = [k for k in range(i, j) if lines[k][0] == "bezier-open"][0]
+                pl = [k for k in range(i, j) if lines[k][0] == "bpoint-line"]
+                if which in ("midpoint", "radius", "domain") and pl:
+                    if which == "radius":
+                        m = re.search(r'(size\s*=\s*"\s*)(\d+)(\s*")', lines[bo][1])
+                        lines[bo] = (lines[bo][0], lines[bo][1][:m.start(2)] + str(int(m.group(2)) + rng.choice([1, -1])) + lines[bo][1][m.end(2):])
+                    else:
+                        k = rng.choice(pl)
+                        lines[k] = (lines[k][0], lines[k][1].rstrip() + " 1")
+                    tag = "R"
+                    which = "done"
+                items = [bo]
             k = items[0]
             role, t = lines[k]
             if which == "midpoint":
@@ -600,7 +650,7 @@ def mutate(rng, L, st):
                 ml = [k for k in range(i + 1, len(lines)) if lines[k][0] in ("map-line", "map-close")]
                 ml = ml[:[lines[k][0] for k in ml].index("map-close")]
                 lines[ml[pos]] = ("map-line", str(rng.choice(free)))
-                tag = "RKC"
+                tag = "R"        # former K11: MeshNodeLinkerError
     elif kind == "huge-count":
         c = idx_of(("mesh-open", "part-open", "topo-open", "map-open", "attr-open", "ps-open", "patch-open"))
         i = rng.choice(c) if c else 0
@@ -1149,11 +1199,16 @@ K_KINDS = {
     # class 1 attached BY CONSTRUCTION (the mutator replaced a count / dimension / rank token by a huge number):
     # besides crashing, the value may simply be stored
     "B": ("abort", "timeout", "other-exception", "sanitizer-asan", "sanitizer-ubsan", "accepted", "rterr", "rtdiff"),
-    # K11: deduct_topology stores an out-of-bounds sentinel for a parent vertex that is not in the part
-    "C": ("sanitizer-asan", "abort", "rterr", "accepted"),
+    # K14: BezierChartParser::close checks nothing (no <Points> block: the writer reads an empty deque; several
+    #      <Points> blocks: more points than the declared size are accepted)
+    "F": ("sanitizer-ubsan", "sanitizer-asan", "abort", "accepted"),
+    # K15: SurfaceMesh triangle vertex indices are not checked against the declared number of vertices
+    "G": ("accepted", "sanitizer-asan"),
+    # K16: BezierPointsParser: (num_ctrl+1)*2+1 wraps around for a huge control point count -> std::out_of_range
+    "H": ("other-exception",),
 }
-K_ORDER = "B1C"
-K_NAME = {"B": "1", "C": "11"}
+K_ORDER = "B1FGH"
+K_NAME = {"B": "1", "F": "14", "G": "15", "H": "16"}
 
 
 def first_content_line(text):
@@ -1576,7 +1631,7 @@ def model_filter(case):
         if split_tag(t[1])[1]:
             return False        # huge declared counts: allocation failures are not modelled
 
-        if re.search(r"<\s*(Bezier|SurfaceMesh|Extrude)\b", unhx(t[2]).translate({7: 32, 8: 32})):
+        if re.search(r"<\s*(SurfaceMesh|Extrude)\b", unhx(t[2]).translate({7: 32, 8: 32})):
             return False        # chart kinds that are not modelled
     return True
 
@@ -1615,16 +1670,30 @@ def corpus_cases():
         ("R", H + M + part(mp0 + '<Mapping dim="2">\n1\n</Mapping>\n', 'topology="none" size="2 0 1"') + E, LE),
         ("A", H + M + part(mp0 + '<Mapping dim="2">\n0\n</Mapping>\n', 'topology="none" size="2 0 1"') + E, None),
         ("A", H + part('<Mapping dim="0">\n0\n400\n</Mapping>\n') + E, None),     # no root mesh: nothing to validate
-        # topology="parent": complete vertex set (valid) / K11 (open): an edge whose vertices are not in the part
+        # topology="parent": complete vertex set (valid) / former K11: an entity whose vertices are not in the part
         ("A", H + M + part('<Mapping dim="0">\n1\n0\n</Mapping>\n<Mapping dim="1">\n0\n</Mapping>\n', 'topology="parent" size="2 1"') + E, None),
-        ("RKC", H + M + part('<Mapping dim="0">\n0\n1\n</Mapping>\n<Mapping dim="1">\n1\n</Mapping>\n', 'topology="parent" size="2 1"') + E, None),
-        ("RKC", H + M + part('<Mapping dim="0">\n0\n1\n</Mapping>\n<Mapping dim="1">\n0\n</Mapping>\n<Mapping dim="2">\n0\n</Mapping>\n',
-                             'topology="parent" size="2 1 1"') + E, None),
+        ("R", H + M + part('<Mapping dim="0">\n0\n1\n</Mapping>\n<Mapping dim="1">\n1\n</Mapping>\n', 'topology="parent" size="2 1"') + E, LE),
+        ("R", H + M + part('<Mapping dim="0">\n0\n1\n</Mapping>\n<Mapping dim="1">\n0\n</Mapping>\n<Mapping dim="2">\n0\n</Mapping>\n',
+                             'topology="parent" size="2 1 1"') + E, LE),
         # former K12: parent part without edges but with a cell (the zero-below check now covers topology="parent")
         ("R", H + M + part('<Mapping dim="0">\n0\n1\n2\n3\n</Mapping>\n<Mapping dim="2">\n0\n</Mapping>\n',
                              'topology="parent" size="4 0 1"') + E, CE),
         ("A", H + M + part('<Mapping dim="0">\n0\n1\n2\n3\n</Mapping>\n<Mapping dim="1">\n0\n1\n2\n3\n</Mapping>\n'
                            '<Mapping dim="2">\n0\n</Mapping>\n', 'topology="parent" size="4 4 1"') + E, None),
+        # Bezier charts: valid, malformed, and the open findings K14 / K16
+        ("A", H + '<Chart name="c">\n<Bezier dim="2" size="3" type="closed" orientation="-1">\n<Points>\n0 0 0\n1 0.5 0.25 1 0\n0 0 0\n'
+              '</Points>\n<Params>\n0\n1\n2\n</Params>\n</Bezier>\n</Chart>\n' + M + E, None),
+        ("R", H + '<Chart name="c">\n<Bezier dim="3" size="2">\n<Points>\n0 0 0\n0 1 1\n</Points>\n</Bezier>\n</Chart>\n' + M + E, GE),
+        ("R", H + '<Chart name="c">\n<Bezier dim="2" size="1">\n<Points>\n0 0 0\n</Points>\n</Bezier>\n</Chart>\n' + M + E, GE),
+        ("R", H + '<Chart name="c">\n<Bezier dim="2" size="2" type="round">\n<Points>\n0 0 0\n0 1 1\n</Points>\n</Bezier>\n</Chart>\n' + M + E, CE),
+        ("R", H + '<Chart name="c">\n<Bezier dim="2" size="2">\n<Points>\n0 0 0\n</Points>\n</Bezier>\n</Chart>\n' + M + E, GE),
+        ("R", H + '<Chart name="c">\n<Bezier dim="2" size="2">\n<Points>\n1 0 0 1 1\n0 1 1\n</Points>\n</Bezier>\n</Chart>\n' + M + E, CE),
+        ("R", H + '<Chart name="c">\n<Bezier dim="2" size="2">\n<Points>\n0 0 0\n0 1 1 1\n</Points>\n</Bezier>\n</Chart>\n' + M + E, CE),
+        ("R", H + '<Chart name="c">\n<Bezier dim="2" size="2">\n<Points>\n0 0 0\n0 1 1\n</Points>\n<Params>\n0\n</Params>\n</Bezier>\n</Chart>\n' + M + E, GE),
+        ("RKF", H + '<Chart name="c">\n<Bezier dim="2" size="2">\n</Bezier>\n</Chart>\n' + M + E, None),
+        ("RKF", H + '<Chart name="c">\n<Bezier dim="2" size="2">\n<Points>\n0 0 0\n0 1 1\n</Points>\n<Points>\n0 2 2\n0 3 3\n</Points>\n'
+                '</Bezier>\n</Chart>\n' + M + E, None),
+        ("RKH", H + '<Chart name="c">\n<Bezier dim="2" size="2">\n<Points>\n0 0 0\n18446744073709551615\n</Points>\n</Bezier>\n</Chart>\n' + M + E, None),
         # charts: Circle with / without domain (2D), wrong kinds and malformed attributes
         ("A", H + '<Chart name="c">\n<Circle radius="0.5" midpoint="1 2" domain="0 4" >\n</Circle>\n</Chart>\n' + M + E, None),
         ("R", H + '<Chart name="c">\n<Sphere radius="0.5" midpoint="1 2 3" />\n</Chart>\n' + M + E, GE),
@@ -1666,6 +1735,14 @@ def corpus_cases():
         ("R", "\n\n", None),
         ("R", "<FeatMeshFile version=\"1\" mesh=\"conformal:hypercube:2:2\">", None),
     ]
+    H3 = '<FeatMeshFile version="1" mesh="conformal:hypercube:3:3">\n'
+    M3 = ('<Mesh type="conformal:hypercube:3:3" size="8 1 1 1">\n<Vertices>\n0 0 0\n1 0 0\n0 1 0\n1 1 0\n0 0 1\n1 0 1\n0 1 1\n1 1 1\n'
+          '</Vertices>\n<Topology dim="1">\n0 1\n</Topology>\n<Topology dim="2">\n0 1 2 3\n</Topology>\n'
+          '<Topology dim="3">\n0 1 2 3 4 5 6 7\n</Topology>\n</Mesh>\n')
+    surf = lambda tri: ('<Chart name="c">\n<SurfaceMesh verts="3" trias="1">\n<Vertices>\n0 0 0\n1 0 0\n0 1 0.5\n</Vertices>\n<Triangles>\n'
+                        + tri + '\n</Triangles>\n</SurfaceMesh>\n</Chart>\n')
+    c += [("A", H3 + surf("0 1 2") + M3 + E, None),        # former K13: must round-trip
+          ("RKG", H3 + surf("0 1 7") + M3 + E, None)]      # K15 (open): vertex index 7 of 3 vertices
     cases = []
     for tag, txt, cls in c:
         case = "mesh %s %s" % (tag, hx(txt))
